@@ -9,6 +9,7 @@ import (
 	"fmt"
 	"go/types"
 	"sort"
+	"strings"
 
 	"golang.org/x/tools/go/ssa"
 )
@@ -81,6 +82,13 @@ type Scheduler struct {
 }
 
 type abortGoroutine struct{}
+
+func shortFn(s string) string {
+	if i := strings.LastIndex(s, "/"); i >= 0 {
+		return s[i+1:]
+	}
+	return s
+}
 
 func (ex *Exec) initSched() {
 	ex.sched = &Scheduler{maxPreempt: ex.h.Preempt, maxTimers: ex.h.Timers, abortAck: make(chan struct{})}
@@ -225,6 +233,29 @@ func (ex *Exec) yield(what string) {
 	ex.fireTimer(timers[k-1-len(others)])
 }
 
+// yieldFree is an explicit scheduling point of the harness: any enabled
+// goroutine may run next; it does not consume the preemption budget.
+func (ex *Exec) yieldFree(what string) {
+	if ex.sched == nil || ex.initMode > 0 || len(ex.gs) == 1 {
+		return
+	}
+	cur := ex.curG
+	var others []*Goroutine
+	for _, g := range ex.enabled() {
+		if g != cur {
+			others = append(others, g)
+		}
+	}
+	if len(others) == 0 {
+		return
+	}
+	k := ex.choose(1 + len(others))
+	if k == 0 {
+		return
+	}
+	ex.transfer(cur, others[k-1])
+}
+
 // switchAway is called when the current goroutine cannot continue (blocked or
 // finished). It hands the baton to another goroutine; blocking switches are free.
 func (ex *Exec) switchAway(cur *Goroutine, exiting bool) {
@@ -256,6 +287,7 @@ func (ex *Exec) switchAway(cur *Goroutine, exiting bool) {
 				return
 			}
 			if exiting {
+				ex.sched.events = append(ex.sched.events, fmt.Sprintf("g%d[%s] exits -> g%d[%s]", cur.id, shortFn(cur.fnName), next.id, shortFn(next.fnName)))
 				ex.curG = next
 				next.resume <- struct{}{}
 				return
@@ -274,6 +306,7 @@ func (ex *Exec) switchAway(cur *Goroutine, exiting bool) {
 }
 
 func (ex *Exec) transfer(cur, next *Goroutine) {
+	ex.sched.events = append(ex.sched.events, fmt.Sprintf("g%d[%s] -> g%d[%s] (%s)", cur.id, shortFn(cur.fnName), next.id, shortFn(next.fnName), cur.what))
 	saveFrame := ex.curFrame
 	ex.curG = next
 	next.resume <- struct{}{}
@@ -359,6 +392,7 @@ func (ex *Exec) timeType() types.Type {
 }
 
 func (ex *Exec) fireTimer(t *Timer) {
+	ex.sched.events = append(ex.sched.events, fmt.Sprintf("timer#%d fires", t.id))
 	ex.sched.timerFires++
 	t.fired++
 	if !t.periodic {
